@@ -184,6 +184,25 @@ pub fn path_sets(tier: Tier) -> Vec<PathSet> {
     );
     v.push(PathSet { name: "plain<=3-steps x deep/wide docs".into(), paths: mk(jgen::plain_paths(3)), docs: deep.clone() });
     v.push(PathSet { name: "2-steps-one-filter(reduced) x deep/wide docs".into(), paths: mk(jgen::filter_paths(2, &jgen::filters_reduced())), docs: deep.clone() });
+    {
+        let kdocs: Arc<Vec<(RVal, Vec<u8>)>> = Arc::new(refmodel::gen::keyorder_docs().into_iter().flat_map(|d| [d.clone(), RVal::Arr(vec![RVal::u(7), d.clone()]), RVal::obj(vec![("a", d)])]).map(|x| { let b = enc(&x); (x, b) }).collect());
+        let mut kp = vec![];
+        for k in refmodel::gen::ORDER_KEYS {
+            if k.is_empty() {
+                continue;
+            }
+            for pre in [vec![Step::Root], vec![Step::Root, Step::Indices(vec![AIdx::One(Idx::N(1))])], vec![Step::Root, Step::Dot("a".into())]] {
+                for st in [Step::Dot(k.to_string()), Step::ObjField(k.to_string())] {
+                    let mut s = pre.clone();
+                    s.push(st);
+                    kp.push(JPath(s));
+                }
+            }
+            kp.push(JPath(vec![Step::Root, Step::DotWild, Step::Filter(Box::new(Expr::Exists(vec![Step::Current, Step::Dot(k.to_string())])))]));
+        }
+        kp.push(JPath(vec![Step::Root, Step::ObjField("".into())]));
+        v.push(PathSet { name: "member steps over the key-order universe".into(), paths: mk(kp), docs: kdocs });
+    }
     if tier.thorough() {
         v.push(PathSet { name: "plain-4-steps x deep/wide docs".into(), paths: mk(jgen::plain_paths(4).into_iter().filter(|p| p.0.len() == 5).collect()), docs: deep.clone() });
         v.push(PathSet { name: "plain-4-steps x small-subset".into(), paths: mk(jgen::plain_paths(4).into_iter().filter(|p| p.0.len() == 5).collect()), docs: small });
